@@ -394,7 +394,7 @@ theorem unpark_ts {ex exo} {ts : TState} {q : ScqId} {w : WId} {wk wk' : Worker}
     rw [hmd]
     let ts' : TState := (ts.unparkTree wk.scq wk.id).setS s'
     show TS X ts'
-    have hwt : wk.task = none := (hT.inv.core.w1 wk.scq wk.id wk hw hpk).1
+    have hwt : wk.task = none := hT.inv.core.w1 wk.scq wk.id wk hw hpk
     obtain ⟨x0, hx0, hxq, hxi, hxp, hxl⟩ := hS.wx_of_worker hw
     have hlast : ∃ p, x0.last = some p := by
       cases hl : x0.last with
